@@ -141,6 +141,7 @@ def run(chk, S: Session):
     mean_algebra_rules(chk, S, r4)
     from_mean_and_std_rules(chk, S, r3)
     reversal_kernel_rules(chk, S)
+    covariance_algebra_rules(chk, S)
     nin, nout, nmid = AD.dim("n_in"), AD.dim("n_out"), AD.dim("n_mid")
     for fam in FAMS:
         cfg = {"factorisation": fam.name}
@@ -743,3 +744,72 @@ def _enclosing_function(m, line):
         if isinstance(node, (_ast.FunctionDef, _ast.ClassDef)) and node.lineno <= line <= (node.end_lineno or node.lineno):
             chain.append((node.lineno, node.name))
     return ".".join(n for _l, n in sorted(chain)) or "<module>"
+
+
+# ---------------------------------------------------------------------------
+# R-C08-6: value identities of the covariance algebra (domain G: Gram matrices of factors in the matrix-word algebra)
+def covariance_algebra_rules(chk, S):
+    from .. import gdomain as GD
+
+    r6 = chk.rule("R-C08-6", "value identities of the covariance algebra: the Gram matrix of every returned factor is the dense formula -- apply / marginalise / observed part of revert: "
+                  "P_o (A P_i S P_i A^T + Q) P_o; merge: A_1 T Q_2 T A_1^T + Q_1 with T = P_i1 P_o2; preconditioner removal: P_o Q P_o and P_o A P_i; the reversal kernel is "
+                  "handed the prior factor in latent coordinates, A times it, and the noise factor (positive scalings)", floor=24)
+    n1, n2, n3 = AD.dim("n1"), AD.dim("n2"), AD.dim("n3")
+    for fam in FAMS:
+        it, env, _MD = _m_setup(S, fam)
+        where = fam.module
+        cfg = {"factorisation": fam.name}
+        cname = fam.cond_cls.rsplit(".", 1)[1]
+        c = mk_cond(it, env, fam, "c", n1, n2, Ein, Lin, Lout, Eout)
+        c2 = mk_cond(it, env, fam, "c2", n2, n3, Eout, Lout, Lin, Ein)
+        rv = mk_normal(it, env, fam, "rv", n1, Ein)
+        x = typed(env, "x", fam.mean(n1, Ein))
+        A1, N1, tl1, to1 = c.fields["A"], c.fields["noise"].fields["cholesky_flat"], c.fields["to_latent"], c.fields["to_observed"]
+        A2, N2, tl2, to2 = c2.fields["A"], c2.fields["noise"].fields["cholesky_flat"], c2.fields["to_latent"], c2.fields["to_observed"]
+        L = rv.fields["cholesky_flat"]
+        alg = GD.GAlgebra([tl1, to1, tl2, to2], [A1, A2, N1, N2, L])
+        M = lambda t: alg.ev(t, "M")  # noqa: E731
+        D = alg.scaling_of
+        Tr = GD.transpose
+
+        def cov(Acond, Pi, Po, S_, Q_):
+            return Po @ (Acond @ Pi @ S_ @ Pi @ Tr(Acond) + Q_) @ Po
+
+        SL, Q1, Q2 = M(L) @ Tr(M(L)), M(N1) @ Tr(M(N1)), M(N2) @ Tr(M(N2))
+
+        def req(name, got, want, text):
+            try:
+                g = got()
+            except GD.Opaque as e:
+                r6.unknown(f"{cname} {name}", f"not expressible in the word algebra: {e}", where, cfg)
+                return
+            ok, det = GD.equal(g, want)
+            r6.require(ok, f"{cname} {name}", f"{text}: {det}", f"{text} does not hold: {det}", where, cfg)
+
+        try:
+            ax = call(it, method(it, c, "apply_flat"), x)
+            req("apply_flat covariance", lambda: alg.left_gram(ax.fields["cholesky_flat"]), D(to1) @ Q1 @ D(to1), "cov = P_o Q P_o")
+            mg = call(it, method(it, c, "marginalise"), rv)
+            want_m = cov(M(A1), D(tl1), D(to1), SL, Q1)
+            req("marginalise covariance", lambda: alg.left_gram(mg.fields["cholesky_flat"]), want_m, "cov = P_o (A P_i S P_i A^T + Q) P_o")
+            obs, bw = call(it, method(it, c, "revert"), rv, solve_triu=PrimV("linalg.solve_triu"))
+            req("revert observed covariance", lambda: alg.left_gram(obs.fields["cholesky_flat"]), want_m, "observed cov = marginal cov")
+            # what the kernel is handed
+            ker = [t for t in T.subterms([obs.fields["cholesky_flat"]]) if isinstance(t, T.Term) and t.op == "revert_conditional"]
+            if len(ker) == 1 and len(ker[0].args) == 3:
+                r_x_f, r_x, r_yx = ker[0].args
+                req("revert kernel prior factor", lambda: alg.right_gram(r_x), D(tl1) @ SL @ D(tl1), "R_X^T R_X = P_i S P_i (prior covariance in latent coordinates)")
+                req("revert kernel noise factor", lambda: alg.right_gram(r_yx), Q1, "R_YX^T R_YX = Q")
+                req("revert kernel cross factor is A times the prior factor", lambda: M(r_x_f), M(r_x) @ Tr(M(A1)), "R_X_F = R_X A^T")
+            else:
+                r6.unknown(f"{cname} revert kernel inputs", f"{len(ker)} kernel calls found", where, cfg)
+            mrg = call(it, method(it, c2, "merge"), c)
+            Tm = D(tl2) @ D(to1)
+            req("merge noise covariance", lambda: alg.left_gram(mrg.fields["noise"].fields["cholesky_flat"]), M(A2) @ Tm @ Q1 @ Tm @ Tr(M(A2)) + Q2, "noise cov = A_outer T Q_inner T A_outer^T + Q_outer, T = P_i,outer P_o,inner")
+            req("merge linear map", lambda: M(mrg.fields["A"]), M(A2) @ Tm @ M(A1), "A = A_outer T A_inner")
+            pc = call(it, method(it, c, "preconditioner_apply"))
+            req("preconditioner_apply noise covariance", lambda: alg.left_gram(pc.fields["noise"].fields["cholesky_flat"]), D(to1) @ Q1 @ D(to1), "noise cov = P_o Q P_o")
+            req("preconditioner_apply linear map", lambda: M(pc.fields["A"]), D(to1) @ M(A1) @ D(tl1), "A = P_o A P_i")
+        except AnalysisError as e:
+            r6.unknown(f"{cname} covariance algebra", str(e), where, cfg)
+        S.absorb(it)
